@@ -2,6 +2,7 @@ import Spok.Lemmas.EnvTemplate
 import Spok.Lemmas.EnvMerge
 import Spok.Lemmas.PathBasic
 import Spok.Judge.Env
+import Spok.Lemmas.EnvShell
 /-! # Property C13 — variables reach commands with their spokfile value, by template and by environment
 
 Statements are about the model `Spok.Env` (`expand`, `evalRhs`, `load`, `mergeEnv`, `lookup`); the tie to the real
@@ -184,6 +185,42 @@ theorem C13_env_ambient (ambient dotenv spokVars : EnvList) (k w : Str)
     simp [hkey] at hnot
   rw [lookup_none_of_not_key this]
   simp [ha]
+
+/-! ## the judge accepts the model -/
+
+/-- Whatever row the model produces for a command of the generated subset is accepted by the executable
+    judge's per-command test (which the check run applies to the rows of the *real binary*): the command text
+    is the direct substitution, and where the command only mentions spokfile variables its output is the
+    one computed from the spokfile values alone — for every ambient environment, `.env` and map order. -/
+theorem C13_judge_accepts_model_row (scope final : Vars) (ambient dotenv spokVars : EnvList)
+    (c : Command) (t : Str) (i : Nat) (row : Spok.Judge.Env.Row)
+    (hwf : WF c.pieces) (hn : NodupKeys final) (hp : IsEnvOf spokVars final)
+    (hrow : Spok.Judge.Env.modelRow scope (lookup (mergeEnv ambient dotenv spokVars)) t i c = some row) :
+    Spok.Judge.Env.judgeCommand scope final c row = true := by
+  unfold Spok.Judge.Env.modelRow at hrow
+  have hexp : expand scope c.src = .ok (subst scope c.pieces) := C13_template scope c.pieces hwf
+  rw [hexp] at hrow
+  cases hout : c.stdout scope (lookup (mergeEnv ambient dotenv spokVars)) with
+  | none => rw [hout] at hrow; simp at hrow
+  | some out =>
+    rw [hout] at hrow
+    simp at hrow
+    subst hrow
+    unfold Spok.Judge.Env.judgeCommand
+    simp only [decide_true, Bool.true_and, Bool.or_true, Bool.and_true]
+    by_cases hcond : (Spok.Judge.Env.isWords c && Spok.Judge.Env.refsDefined scope c &&
+        (Spok.Judge.Env.envNamesOf c).all (fun n => (get final n).isSome)) = true
+    · have hall : ∀ n ∈ Spok.Judge.Env.envNamesOf c, lookup (mergeEnv ambient dotenv spokVars) n = get final n := by
+        intro n hnm
+        simp only [Bool.and_eq_true, List.all_eq_true] at hcond
+        have := hcond.2 n hnm
+        obtain ⟨v, hv⟩ := Option.isSome_iff_exists.1 this
+        rw [hv]
+        exact C13_env_map final ambient dotenv spokVars n v hn hp hv
+      rw [← stdout_congr scope c hall, hout]
+      simp
+    · simp only [Bool.not_eq_true] at hcond
+      simp [hcond]
 
 /-! ## non-vacuity -/
 
